@@ -99,7 +99,10 @@ func init() {
 		sc := &engine.Scenario{
 			Name: "C16-reset", Cfgs: cfgs([]int{1}, []int{0}, []api.RelMode{api.RelByIdx}, u), Filters: filters, Obs: obs, Slots: 1,
 			Oracle:   drv.Oracle{World: true, Typed: true, Filters: true, Family: relFamily()[:6], Lock: true, Events: true, Stats: true, Pool: true, Res: true},
-			Preludes: [][]model.Op{rich, lean, only6, nil},
+			Preludes: [][]model.Op{rich, lean, only6, nil,
+				append(append([]model.Op{}, rich...), model.Op{K: model.OpReset}, model.Op{K: model.OpShrink}),
+				append(append([]model.Op{}, lean...), model.Op{K: model.OpReset}, model.Op{K: model.OpShrink}, model.Op{K: model.OpNew, Path: model.PathMapN, Cs: ct.Of(ct.P)}),
+			},
 			Alphabet: alpha, Depth: total,
 			NonTrivial: func(x *drv.World) bool { return x.M.Epoch > 0 },
 		}
